@@ -1,0 +1,13 @@
+//go:build verif
+
+package vers
+
+// Machine-checked contracts for this package (checked by /verif/govc; see /verif/DESIGN.md).
+// This file contains comments only; it is compiled only under the build tag "verif".
+
+// A VERS string that passes validation starts with "vers:" and has a '/' after the scheme.
+//@ func valid
+//@   ensures shape: result == nil ==> len(versString) >= 5 && len(strings.SplitN(versString[5:], "/", 2)) == 2
+
+//@ func scheme
+//@   ensures xor: (result1 == nil) ==> valid(versString) == nil
